@@ -92,12 +92,9 @@ func realmSrc(name string, withRelay bool) string {
 	return s + doSrc
 }
 
-func sysSrc(name string) string {
-	return "package " + name + `
-
-import sp "sys/params"
-
-func SetSys(cur realm, typ, module, sub, name, val string) {
+// sysBody calls the sys/params entry point selected by typ (every exported setter is reachable).
+const sysBody = `
+func setSys(typ, module, sub, name, val string) {
 	switch typ {
 	case "string":
 		sp.SetSysParamString(module, sub, name, val)
@@ -115,8 +112,18 @@ func SetSys(cur realm, typ, module, sub, name, val string) {
 			n = -n
 		}
 		sp.SetSysParamInt64(module, sub, name, n)
+	case "uint64":
+		sp.SetSysParamUint64(module, sub, name, uint64(len(val)))
+	case "bytes":
+		sp.SetSysParamBytes(module, sub, name, []byte(val))
 	case "strings":
 		sp.SetSysParamStrings(module, sub, name, []string{val})
+	case "strings0":
+		sp.SetSysParamStrings(module, sub, name, []string{})
+	case "add":
+		sp.UpdateSysParamStrings(module, sub, name, []string{val}, true)
+	case "del":
+		sp.UpdateSysParamStrings(module, sub, name, []string{val}, false)
 	case "bool":
 		sp.SetSysParamBool(module, sub, name, val == "true")
 	default:
@@ -124,6 +131,23 @@ func SetSys(cur realm, typ, module, sub, name, val string) {
 	}
 }
 `
+
+// sysSrc: a realm exposing SetSys (used at gno.land/r/sys/params and at gno.land/r/verif/evil).
+func sysSrc(name string) string {
+	return "package " + name + "\n\nimport sp \"sys/params\"\n\nfunc SetSys(cur realm, typ, module, sub, name, val string) { setSys(typ, module, sub, name, val) }\n" + sysBody
+}
+
+// sysHelperSrc: a /p/ package importing sys/params; sysViaHelperSrc: a realm that calls it.
+func sysHelperSrc() string {
+	return "package syshelper\n\nimport sp \"sys/params\"\n\nfunc SetSys(typ, module, sub, name, val string) { setSys(typ, module, sub, name, val) }\n" + sysBody
+}
+
+func sysViaHelperSrc() string {
+	return "package evilh\n\nimport \"gno.land/p/verif/syshelper\"\n\nfunc SetSys(cur realm, typ, module, sub, name, val string) { syshelper.SetSys(typ, module, sub, name, val) }\n"
+}
+
+func sysRunSrc(args []string) string {
+	return fmt.Sprintf("package main\n\nimport sp \"sys/params\"\n\nfunc main() { setSys(%q, %q, %q, %q, %q) }\n%s", args[0], args[1], args[2], args[3], args[4], sysBody)
 }
 
 // ---------------------------------------------------------------- key classes and module keys
@@ -263,6 +287,7 @@ type world struct {
 	num, seq uint64
 	runPath  string
 	broken   string // set when the application panicked outside a transaction (chain halt)
+	helperOK bool   // the /p/ helper importing sys/params and the realm calling it could be deployed
 	evilOK   bool   // the realm importing sys/params outside the designated path could be deployed
 	mainKey  store.StoreKey
 }
@@ -340,12 +365,40 @@ func newWorld() *world {
 	// the second importer of sys/params: deployed by a normal transaction (it may be refused)
 	ok, _ := w.deliver(appenv.AddPkgMsg(w.user.Addr, appenv.Pkg{Path: "gno.land/r/verif/evil", Files: map[string]string{"evil.gno": sysSrc("evil")}}))
 	w.evilOK = ok
+	ok1, _ := w.deliver(appenv.AddPkgMsg(w.user.Addr, appenv.Pkg{Path: "gno.land/p/verif/syshelper", Files: map[string]string{"h.gno": sysHelperSrc()}}))
+	ok2 := false
+	if ok1 {
+		ok2, _ = w.deliver(appenv.AddPkgMsg(w.user.Addr, appenv.Pkg{Path: "gno.land/r/verif/evilh", Files: map[string]string{"e.gno": sysViaHelperSrc()}}))
+	}
+	w.helperOK = ok1 && ok2
 	return w
 }
 
 // ---------------------------------------------------------------- one behaviour
 
 type failure struct{ key, what string }
+
+// sysCall makes `caller` invoke the sys/params entry point selected by args[0].
+func (w *world) sysCall(caller string, args []string) (bool, string) {
+	switch caller {
+	case "sys":
+		return w.deliver(vm.NewMsgCall(w.user.Addr, nil, "gno.land/r/sys/params", "SetSys", args))
+	case "evil":
+		if !w.evilOK {
+			return false, "realm importing sys/params outside gno.land/r/sys/params cannot be deployed"
+		}
+		return w.deliver(vm.NewMsgCall(w.user.Addr, nil, "gno.land/r/verif/evil", "SetSys", args))
+	case "helper":
+		if !w.helperOK {
+			return false, "/p/ package importing sys/params cannot be deployed"
+		}
+		return w.deliver(vm.NewMsgCall(w.user.Addr, nil, "gno.land/r/verif/evilh", "SetSys", args))
+	case "run":
+		return w.deliver(vm.NewMsgRun(w.user.Addr, nil, []*std.MemFile{{Name: "main.gno", Body: sysRunSrc(args)}}))
+	}
+	mbt.Die("unknown caller %q", caller)
+	return false, ""
+}
 
 func nsPath(w *world, ns string) string {
 	if ns == "run" {
@@ -373,14 +426,13 @@ func (w *world) submit(s mbt.Step, u string) (bool, string) {
 	case "SysSet":
 		mk := modKeys[s.Str("mk")]
 		typ, lit := sysArgs(mk, s.Str("v"))
-		path := "gno.land/r/sys/params"
-		if s.Str("caller") == "evil" {
-			if !w.evilOK {
-				return false, "realm importing sys/params outside gno.land/r/sys/params cannot be deployed"
-			}
-			path = "gno.land/r/verif/evil"
-		}
-		return w.deliver(vm.NewMsgCall(w.user.Addr, nil, path, "SetSys", []string{typ, mk.module, mk.sub, mk.name, lit}))
+		return w.sysCall(s.Str("caller"), []string{typ, mk.module, mk.sub, mk.name, lit})
+	case "SysUpd":
+		mk := modKeys["bank_denoms"]
+		return w.sysCall(s.Str("caller"), []string{s.Str("op"), mk.module, mk.sub, mk.name, mk.vals[s.Str("d")]})
+	case "SysProbe":
+		// a key the node module accepts without validation if the call gets through
+		return w.sysCall(s.Str("caller"), []string{strings.ToLower(s.Str("fn")), "node", "verifprobe", "k", "true"})
 	}
 	mbt.Die("unknown step %s", mbt.JS(s))
 	return false, ""
@@ -388,7 +440,7 @@ func (w *world) submit(s mbt.Step, u string) (bool, string) {
 
 // expected builds the store the spec predicts: the store at the start of the behaviour (d0)
 // overlaid with the behaviour's own user keys, module values and accounting keys.
-func (w *world) compare(s mbt.Step, u string, d0, got map[string][]byte) *failure {
+func (w *world) compare(s mbt.Step, u string, d0, got map[string][]byte, touchesDenoms bool) *failure {
 	st := s["st"].(map[string]any)
 	type want struct {
 		val     []byte
@@ -429,6 +481,13 @@ func (w *world) compare(s mbt.Step, u string, d0, got map[string][]byte) *failur
 		case "strings":
 			exp[k] = want{strs: []string{lit}, isStrs: true, present: true}
 		}
+	}
+	if touchesDenoms {
+		var lits []string
+		for _, d := range mbt.Strs(st["denoms"]) {
+			lits = append(lits, modKeys["bank_denoms"].vals[d])
+		}
+		exp["bank:p:restricted_denoms"] = want{strs: lits, isStrs: true, present: true}
 	}
 	for _, ns := range mbt.Strs(st["meta"]) {
 		exp["_realmmeta_"+nsPath(w, ns)] = want{anyVal: true, present: true}
@@ -490,6 +549,12 @@ func clip(b []byte) string {
 }
 
 func brief(s mbt.Step) string {
+	if s.Act() == "SysUpd" {
+		return fmt.Sprintf("SysUpd(%s,%s,%s)", s.Str("caller"), s.Str("op"), s.Str("d"))
+	}
+	if s.Act() == "SysProbe" {
+		return fmt.Sprintf("SysProbe(%s,%s)", s.Str("caller"), s.Str("fn"))
+	}
 	if s.Act() == "SysSet" {
 		return fmt.Sprintf("SysSet(%s,%s,%s)", s.Str("caller"), s.Str("mk"), s.Str("v"))
 	}
@@ -502,6 +567,18 @@ var uniq int
 func (w *world) replay(beh []mbt.Step) (int, *failure) {
 	uniq++
 	u := fmt.Sprintf("u%d", uniq)
+	// behaviours that edit bank:p:restricted_denoms start from the empty list (as the spec does)
+	touches := false
+	for _, s := range beh {
+		if s.Act() == "SysUpd" || (s.Act() == "SysSet" && s.Str("mk") == "bank_denoms") {
+			touches = true
+		}
+	}
+	if touches {
+		if ok, log := w.sysCall("sys", []string{"strings0", "bank", "p", "restricted_denoms", ""}); !ok {
+			mbt.Die("cannot reset bank:p:restricted_denoms through gno.land/r/sys/params: %s", log)
+		}
+	}
 	d0 := w.dump()
 	for k, s := range beh {
 		ok, log := w.submit(s, u)
@@ -522,7 +599,7 @@ func (w *world) replay(beh []mbt.Step) (int, *failure) {
 		}
 		got := w.dump()
 		keysSeen += len(got)
-		if fl := w.compare(s, u, d0, got); fl != nil {
+		if fl := w.compare(s, u, d0, got, touches); fl != nil {
 			fl.what = fmt.Sprintf("step %d: %s", k, fl.what)
 			return k, fl
 		}
@@ -579,6 +656,6 @@ func main() {
 		}
 	}
 	mbt.Summary(map[string]any{"behaviours": len(behs), "replays": len(behs), "replays_ok": len(behs) - failed - unreported, "steps": steps,
-		"txs": txs, "param_keys_compared": keysSeen, "unreported_failures": unreported, "evil_deployable": w.evilOK})
+		"txs": txs, "param_keys_compared": keysSeen, "unreported_failures": unreported, "evil_deployable": w.evilOK, "syshelper_deployable": w.helperOK})
 	mbt.Flush()
 }
